@@ -249,6 +249,23 @@ func genC14(g *G) {
 		}
 		emit(w, start, target, "cap")
 	}
+	for _, below := range []int{0, 3} {
+		// rotation at (or just below) the cap: every pending update is a brand-new id, so the additions of a
+		// round need the slots freed by the removals of the same round (removals are applied first)
+		w := newWorld(g)
+		w.hasPred = false
+		start, target := map[int]J{}, map[int]J{}
+		for id := 1; id <= 2000-below; id++ {
+			d := w.smallDef(1+id%3000, 1)
+			start[id] = d
+			target[id] = d
+		}
+		for id := 1; id <= 12; id++ {
+			delete(target, id*9)
+			target[4000+id] = w.smallDef(7000+id, 1)
+		}
+		emit(w, start, target, "cap-rotation")
+	}
 }
 
 func sortInts(a []int) {
